@@ -5,6 +5,7 @@ import Mathlib.Algebra.Order.BigOperators.Group.List
 import Mathlib.Tactic.Ring
 import Mathlib.Tactic.Linarith
 import Mathlib.Tactic.FieldSimp
+import Mathlib.Data.List.Forall2
 /-!
 Helper lemmas for C20 (weighted averages over lists, the kept-pairs view of a masked
 sequence, head blocks of a linear map).
@@ -269,5 +270,761 @@ theorem unsqueezeLast_broadcast (mm : List Bool) (h : Nat) :
     rw [ih, bget_singleton]
 
 end Heads
+
+/-! ## Score functions: list operations = index sums -/
+section ScoreAlg
+variable {κ : Type} [Field κ]
+
+theorem sumTo_zero (f : Nat → κ) : sumTo 0 f = 0 := by simp [sumTo]
+
+theorem sumTo_succ' (n : Nat) (f : Nat → κ) : sumTo (n + 1) f = f 0 + sumTo n (fun i => f (i + 1)) := by
+  simp [sumTo, List.range_succ_eq_map, List.map_map, Function.comp_def]
+
+theorem sumTo_congr (n : Nat) (f g : Nat → κ) (h : ∀ i, i < n → f i = g i) : sumTo n f = sumTo n g := by
+  unfold sumTo
+  congr 1
+  apply List.map_congr_left
+  intro i hi
+  exact h i (List.mem_range.mp hi)
+
+theorem dot_eq_sumTo : ∀ (x y : List κ) (n : Nat), x.length = n → y.length = n →
+    dot x y = sumTo n (fun i => x.getD i 0 * y.getD i 0)
+  | [], y, n, hx, _ => by
+    simp at hx; subst hx; simp [dot, sumTo]
+  | a :: x, [], n, hx, hy => by simp at hy; subst hy; simp at hx
+  | a :: x, b :: y, n, hx, hy => by
+    obtain ⟨m, rfl⟩ : ∃ m, n = m + 1 := ⟨x.length, by simpa using hx.symm⟩
+    have ih := dot_eq_sumTo x y m (by simpa using hx) (by simpa using hy)
+    rw [sumTo_succ']
+    simp only [dot] at ih ⊢
+    simp [ih]
+
+theorem dot_append (q k r1 r2 : List κ) (h : q.length = r1.length) :
+    dot (q ++ k) (r1 ++ r2) = dot q r1 + dot k r2 := by
+  simp [dot, List.zipWith_append h]
+
+theorem linear_length (W : List (List κ)) (b : Option (List κ)) (x : List κ)
+    (hb : ∀ bb, b = some bb → bb.length = W.length) : (linear W b x).length = W.length := by
+  cases b with
+  | none => simp [linear]
+  | some bb => simp [linear, hb bb rfl]
+
+theorem linear_getD (W : List (List κ)) (b : Option (List κ)) (x : List κ) (i : Nat)
+    (hi : i < W.length) (hb : ∀ bb, b = some bb → bb.length = W.length) :
+    (linear W b x).getD i 0 = dot x (W.getD i []) + biasAt b i := by
+  cases b with
+  | none => simp [linear, biasAt, List.getD_eq_getElem?_getD, hi]
+  | some bb =>
+    have hbb := hb bb rfl
+    simp [linear, biasAt, List.getD_eq_getElem?_getD, hi, hbb]
+
+omit [Field κ] in
+theorem getD_mem_rows (W : List (List κ)) (i : Nat) (hi : i < W.length) : W.getD i [] ∈ W := by
+  simp [List.getD_eq_getElem?_getD, hi]
+
+/-- The model's score functions are the docstring formulas. -/
+theorem score_eq_scoreSpec (th : κ → κ) (Q K : Nat) (fl : Flavour κ) (q k : List κ)
+    (hq : q.length = Q) (hk : k.length = K) (hfl : fl.WellShaped Q K) :
+    score th fl q k = scoreSpec th Q K fl q k := by
+  cases fl with
+  | dot c =>
+    simp only [Flavour.WellShaped] at hfl
+    simp only [score, scoreSpec]
+    rw [dot_eq_sumTo q k Q hq (by omega)]
+  | general W b =>
+    obtain ⟨hW, hrows, hb⟩ := hfl
+    simp only [score, scoreSpec]
+    have hb' : ∀ bb, b = some bb → bb.length = W.length := fun bb h => by rw [hb bb h, hW]
+    rw [dot_eq_sumTo q (linear W b k) Q hq (by rw [linear_length W b k hb', hW])]
+    apply sumTo_congr
+    intro i hi
+    rw [linear_getD W b k i (by omega) hb',
+      dot_eq_sumTo k (W.getD i []) K hk (hrows _ (getD_mem_rows W i (by omega)))]
+    congr 2
+    apply sumTo_congr
+    intro j _
+    simp only [entry]
+    ring
+  | concat W b v =>
+    obtain ⟨hW, hrows, hb⟩ := hfl
+    simp only [score, scoreSpec]
+    have hb' : ∀ bb, b = some bb → bb.length = W.length := fun bb h => by rw [hb bb h, hW]
+    rw [dot_eq_sumTo _ v v.length (by rw [List.length_map, linear_length W b _ hb', hW]) rfl]
+    apply sumTo_congr
+    intro i hi
+    have hiW : i < W.length := by omega
+    have hrow := hrows _ (getD_mem_rows W i hiW)
+    have hlen : i < (linear W b (q ++ k)).length := by rw [linear_length W b _ hb']; exact hiW
+    have hmap : ((linear W b (q ++ k)).map th).getD i 0 = th ((linear W b (q ++ k)).getD i 0) := by
+      simp [List.getD_eq_getElem?_getD, hlen]
+    rw [hmap, linear_getD W b _ i hiW hb', mul_comm]
+    congr 3
+    simp only [entry]
+    generalize W.getD i [] = row at hrow ⊢
+    have hsplit : row = row.take Q ++ row.drop Q := by simp
+    have h1 : (row.take Q).length = Q := by simp [hrow]
+    have h2 : (row.drop Q).length = K := by simp [hrow]
+    conv_lhs => rw [hsplit]
+    rw [dot_append q k _ _ (by rw [h1, hq]), dot_eq_sumTo q _ Q hq h1, dot_eq_sumTo k _ K hk h2]
+    congr 1
+    · apply sumTo_congr
+      intro c hc
+      simp only [List.getD_eq_getElem?_getD, List.getElem?_take, hc, if_true]
+      ring
+    · apply sumTo_congr
+      intro c _
+      simp only [List.getD_eq_getElem?_getD, List.getElem?_drop]
+      ring
+
+end ScoreAlg
+
+/-! ## Shapes: `broadcast_shapes` and `check_input` -/
+section Shapes
+
+theorem ext_getD1 {l1 l2 : List Nat} (h : l1.length = l2.length)
+    (h2 : ∀ j, j < l1.length → l1.getD j 1 = l2.getD j 1) : l1 = l2 := by
+  apply List.ext_getElem h
+  intro j h1 h3
+  have := h2 j h1
+  simpa [List.getD_eq_getElem?_getD, h1, h3] using this
+
+theorem pick1_one_left (y : Nat) : pick1 1 y = y := by simp [pick1]
+theorem pick1_one_right (x : Nat) : pick1 x 1 = x := by
+  unfold pick1; split <;> simp_all
+
+theorem compat1_iff (x y : Nat) : compat1 x y = true ↔ (x = y ∨ x = 1 ∨ y = 1) := by
+  simp [compat1, or_assoc]
+
+/-- `bcastRev` against its declarative description (axes innermost first). -/
+theorem bcastRev_iff : ∀ (xs ys zs : List Nat),
+    bcastRev xs ys = some zs ↔
+      (zs.length = max xs.length ys.length ∧
+        ∀ j, j < zs.length →
+          (xs.getD j 1 = ys.getD j 1 ∨ xs.getD j 1 = 1 ∨ ys.getD j 1 = 1) ∧
+          zs.getD j 1 = pick1 (xs.getD j 1) (ys.getD j 1))
+  | [], ys, zs => by
+    simp only [bcastRev, Option.some.injEq, List.length_nil, Nat.zero_max, List.getD_nil,
+      pick1_one_left]
+    constructor
+    · rintro rfl
+      exact ⟨rfl, fun j _ => ⟨by simp, rfl⟩⟩
+    · rintro ⟨hl, h⟩
+      exact (ext_getD1 hl (fun j hj => (h j hj).2)).symm
+  | x :: xs, [], zs => by
+    simp only [bcastRev, Option.some.injEq, List.length_nil, Nat.max_zero, List.getD_nil,
+      pick1_one_right]
+    constructor
+    · rintro rfl
+      exact ⟨rfl, fun j _ => ⟨by simp, rfl⟩⟩
+    · rintro ⟨hl, h⟩
+      exact (ext_getD1 hl (fun j hj => (h j hj).2)).symm
+  | x :: xs, y :: ys, zs => by
+    have ih := bcastRev_iff xs ys
+    simp only [bcastRev]
+    constructor
+    · intro h
+      split at h
+      · rename_i hc
+        simp only [Option.map_eq_some_iff] at h
+        obtain ⟨r, hr, rfl⟩ := h
+        obtain ⟨hl, hj⟩ := (ih r).mp hr
+        refine ⟨by simp [hl, Nat.succ_max_succ], ?_⟩
+        intro j hjlt
+        cases j with
+        | zero => exact ⟨(compat1_iff x y).mp hc, by simp⟩
+        | succ j => simpa using hj j (by simpa using hjlt)
+      · simp at h
+    · rintro ⟨hl, hj⟩
+      cases zs with
+      | nil => simp at hl
+      | cons z r =>
+        have h0 := hj 0 (by simp)
+        simp only [List.getD_cons_zero] at h0
+        have hc : compat1 x y = true := (compat1_iff x y).mpr h0.1
+        simp only [hc, if_true, Option.map_eq_some_iff, List.cons.injEq]
+        refine ⟨r, (ih r).mpr ⟨?_, ?_⟩, h0.2.symm, rfl⟩
+        · simp only [List.length_cons, Nat.succ_max_succ] at hl; omega
+        · intro j hjlt
+          simpa using hj (j + 1) (by simpa using hjlt)
+
+/-- **broadcast_shapes** -/
+theorem broadcastShapes_iff (a b c : List Nat) :
+    broadcastShapes a b = some c ↔ BroadcastTo a b c := by
+  unfold broadcastShapes BroadcastTo axisR
+  rw [Option.map_eq_some_iff]
+  constructor
+  · rintro ⟨r, hr, rfl⟩
+    have := (bcastRev_iff _ _ _).mp hr
+    simpa [pick1] using this
+  · intro h
+    refine ⟨c.reverse, (bcastRev_iff _ _ _).mpr ?_, by simp⟩
+    simpa [pick1] using h
+
+/-- **check_input accepts exactly …** -/
+theorem checkInputFull_ok_iff (Q K : Nat) (vsz : Option Nat) (dim : Int) (q k v : List Nat)
+    (mask : Option (List Nat)) (full : List Nat) :
+    checkInputFull Q K vsz dim q k v mask = .ok full ↔ InputOk Q K vsz dim q k v mask full := by
+  unfold checkInputFull
+  constructor
+  · intro h
+    simp only [] at h
+    split at h; · simp at h
+    split at h; · simp at h
+    split at h; · simp at h
+    split at h; · simp at h
+    split at h; · simp at h
+    rename_i h1 h2 h3 h4 h5
+    split at h; · simp at h
+    rename_i e he
+    split at h; · simp at h
+    rename_i e' he'
+    split at h; · simp at h
+    rename_i full' hfull
+    have hsz : full' = full ∧ ∀ n, vsz = some n → v.getLast? = some n := by
+      cases vsz with
+      | none => simp at h; exact ⟨h, by simp⟩
+      | some n =>
+        simp only at h
+        split at h
+        · simp at h
+        · rename_i hn
+          simp only [Except.ok.injEq] at h
+          exact ⟨h, fun m hm => by
+            simp only [Option.some.injEq] at hm; subst hm; simpa using hn⟩
+    obtain ⟨rfl, hv⟩ := hsz
+    refine ⟨by omega, by omega, by simpa using h3, by simpa using h4, by omega, by omega, by omega,
+      ⟨e, e', (broadcastShapes_iff _ _ _).mp he, ?_, (broadcastShapes_iff _ _ _).mp hfull⟩, hv⟩
+    cases mask with
+    | none => simp at he'; exact he'.symm
+    | some ms => exact (broadcastShapes_iff _ _ _).mp he'
+  · rintro ⟨h1, h2, h3, h4, h5, h6, h7, ⟨e, e', he, he', hfull⟩, hv⟩
+    have he1 := (broadcastShapes_iff _ _ _).mpr he
+    have hf1 := (broadcastShapes_iff _ _ _).mpr hfull
+    have c1 : ¬ (q.length + 1 ≠ k.length) := by omega
+    have c2 : ¬ (k.length ≠ v.length) := by omega
+    have c3 : ¬ (q.getLast? ≠ some Q) := by simp [h3]
+    have c4 : ¬ (k.getLast? ≠ some K) := by simp [h4]
+    have c5 : ¬ (dim > (k.length : Int) - 2 ∨ dim = -1 ∨ dim < -(k.length : Int) + 1) := by omega
+    simp only [if_neg c1, if_neg c2, if_neg c3, if_neg c4, if_neg c5, he1]
+    cases mask with
+    | none =>
+      simp only at he'
+      subst he'
+      simp only [hf1]
+      cases vsz with
+      | none => rfl
+      | some n => simp [hv n rfl]
+    | some ms =>
+      simp only at he'
+      simp only [(broadcastShapes_iff _ _ _).mpr he', hf1]
+      cases vsz with
+      | none => rfl
+      | some n => simp [hv n rfl]
+
+/-- **error classes** (single-head attention, `valueSize = none`): a `ValueError` exactly when the
+rank / size / `dim` conditions fail — these are tested before any broadcasting; every other
+rejected call is a `RuntimeError` raised by `broadcast_shapes`. -/
+theorem checkInputFull_value_error_iff (Q K : Nat) (dim : Int) (q k v : List Nat)
+    (mask : Option (List Nat)) :
+    checkInputFull Q K none dim q k v mask = .error .value ↔ ¬ RanksSizesDimOk Q K dim q k v := by
+  unfold checkInputFull RanksSizesDimOk
+  simp only []
+  split
+  · rename_i h; simp; intro h'; omega
+  split
+  · rename_i h; simp; intro _ h'; omega
+  split
+  · rename_i h; simp; intro _ _ h'; exact absurd h' h
+  split
+  · rename_i h; simp; intro _ _ _ h'; exact absurd h' h
+  split
+  · rename_i h; simp; intro _ _ _ _ h1 h2; omega
+  rename_i h1 h2 h3 h4 h5
+  have hok : (q.length + 1 = k.length ∧ k.length = v.length ∧ q.getLast? = some Q ∧
+      k.getLast? = some K ∧ dim ≤ (k.length : Int) - 2 ∧ dim ≠ -1 ∧ -(k.length : Int) + 1 ≤ dim) :=
+    ⟨by omega, by omega, by simpa using h3, by simpa using h4, by omega, by omega, by omega⟩
+  constructor
+  · intro h
+    exfalso
+    split at h; · simp at h
+    split at h; · simp at h
+    split at h; · simp at h
+    simp at h
+  · intro h
+    exact absurd hok h
+
+end Shapes
+
+/-! ## Shapes of equal rank: broadcasting is pointwise -/
+section Doc
+open List
+
+abbrev CompatR : Nat → Nat → Prop := fun x y => compat1 x y = true
+
+theorem bcastRev_forall2 : ∀ {xs ys : List Nat}, Forall₂ CompatR xs ys →
+    bcastRev xs ys = some (List.zipWith pick1 xs ys)
+  | _, _, .nil => by simp [bcastRev]
+  | _, _, .cons (a := x) (b := y) h t => by
+    have hc : compat1 x y = true := h
+    simp [bcastRev, hc, bcastRev_forall2 t]
+
+theorem broadcastShapes_forall2 {a b : List Nat} (h : Forall₂ CompatR a b) :
+    broadcastShapes a b = some (List.zipWith pick1 a b) := by
+  unfold broadcastShapes
+  rw [bcastRev_forall2 (rel_reverse h), ← List.reverse_zipWith h.length_eq]
+  simp
+
+theorem compat_pick (x y : Nat) (h : compat1 x y = true) :
+    compat1 (pick1 x y) y = true ∧ pick1 (pick1 x y) y = pick1 x y := by
+  simp only [compat1, pick1, Bool.or_eq_true, beq_iff_eq] at *
+  by_cases hx : x = 1 <;> by_cases hy : y = 1 <;> simp_all
+
+theorem forall2_pick_right : ∀ {xs ys : List Nat}, Forall₂ CompatR xs ys →
+    Forall₂ CompatR (List.zipWith pick1 xs ys) ys ∧
+      List.zipWith pick1 (List.zipWith pick1 xs ys) ys = List.zipWith pick1 xs ys
+  | _, _, .nil => by simp
+  | _, _, .cons (a := x) (b := y) h t => by
+    have ih := forall2_pick_right t
+    have hp := compat_pick x y h
+    exact ⟨.cons hp.1 ih.1, by simp [hp.2, ih.2]⟩
+
+end Doc
+
+/-! ## The documented shapes are accepted -/
+section Doc2
+open List
+
+theorem seqAxis_nonneg (n kd : Nat) : seqAxis (n : Int) kd = n := by simp [seqAxis]
+
+theorem seqAxis_neg (n kd : Nat) (h : n < kd) : seqAxis ((n : Int) - kd) kd = n := by
+  unfold seqAxis
+  rw [if_neg (by omega)]
+  omega
+
+theorem checkInputFull_documented (Q K D T : Nat) (A B C : List Nat) (vsz : Option Nat)
+    (withMask : Bool) (dim : Int)
+    (hbc : Forall₂ CompatR A (B ++ C))
+    (hv : ∀ n, vsz = some n → n = D)
+    (hdim : dim = B.length ∨
+      (B ≠ [] ∧ dim = (B.length : Int) - ((B ++ [T] ++ C ++ [K]).length : Int))) :
+    seqAxis dim (B ++ [T] ++ C ++ [K]).length = B.length ∧
+    checkInputFull Q K vsz dim (A ++ [Q]) (B ++ [T] ++ C ++ [K]) (B ++ [T] ++ C ++ [D])
+        (if withMask then some (B ++ [T] ++ C) else none)
+      = .ok (List.zipWith pick1 (A.take B.length) B ++ [T] ++ List.zipWith pick1 (A.drop B.length) C
+          ++ [D]) := by
+  have hlen : A.length = B.length + C.length := by simpa using hbc.length_eq
+  have h1 := forall₂_take_append A B C hbc
+  have h2 := forall₂_drop_append A B C hbc
+  set A1 := A.take B.length with hA1
+  set A2 := A.drop B.length with hA2
+  have hkd : (B ++ [T] ++ C ++ [K]).length = B.length + C.length + 2 := by simp; omega
+  have hax : seqAxis dim (B ++ [T] ++ C ++ [K]).length = B.length := by
+    rcases hdim with rfl | ⟨hB, rfl⟩
+    · exact seqAxis_nonneg _ _
+    · exact seqAxis_neg _ _ (by rw [hkd]; omega)
+  refine ⟨hax, ?_⟩
+  -- the shapes that are broadcast
+  have hins : (insertAt B.length 1 (A ++ [Q])).dropLast = A1 ++ [1] ++ A2 := by
+    have : B.length ≤ A.length := by omega
+    simp only [insertAt, List.take_append_of_le_length this, List.drop_append_of_le_length this]
+    rw [← List.append_assoc, List.dropLast_concat]
+  have hX : Forall₂ CompatR (A1 ++ [1] ++ A2) (B ++ [T] ++ C) :=
+    rel_append (rel_append h1 (.cons (by simp [CompatR, compat1]) .nil)) h2
+  have hl1 : A1.length = B.length := h1.length_eq
+  have hE : List.zipWith pick1 (A1 ++ [1] ++ A2) (B ++ [T] ++ C)
+      = List.zipWith pick1 A1 B ++ [T] ++ List.zipWith pick1 A2 C := by
+    rw [List.zipWith_append (by simp [hl1]), List.zipWith_append hl1]
+    simp [pick1]
+  have he := broadcastShapes_forall2 hX
+  obtain ⟨hY, hYeq⟩ := forall2_pick_right hX
+  generalize List.zipWith pick1 (A1 ++ [1] ++ A2) (B ++ [T] ++ C) = e at he hY hYeq hE
+  have hm := broadcastShapes_forall2 hY
+  rw [hYeq] at hm
+  have hV : Forall₂ CompatR (e ++ [1]) (B ++ [T] ++ C ++ [D]) :=
+    rel_append hY (.cons (by simp [CompatR, compat1]) .nil)
+  have hf := broadcastShapes_forall2 hV
+  rw [List.zipWith_append hY.length_eq, hYeq] at hf
+  rw [(checkInputFull_ok_iff _ _ _ _ _ _ _ _ _)]
+  refine ⟨by simp; omega, by simp, by simp, List.getLast?_concat, ?_, ?_, ?_, ?_, ?_⟩
+  · rcases hdim with rfl | ⟨hB, rfl⟩ <;> rw [hkd] <;> push_cast <;> omega
+  · rcases hdim with rfl | ⟨hB, rfl⟩
+    · omega
+    · rw [hkd]; push_cast; omega
+  · rcases hdim with rfl | ⟨hB, rfl⟩
+    · rw [hkd]; push_cast; omega
+    · have : 0 < B.length := List.length_pos_iff.mpr hB
+      rw [hkd]; push_cast; omega
+  · refine ⟨e, e, (broadcastShapes_iff _ _ _).mp ?_, ?_, (broadcastShapes_iff _ _ _).mp ?_⟩
+    · rw [hax, hins, List.dropLast_concat]; exact he
+    · cases withMask with
+      | false => simp
+      | true => simp only [if_true]; exact (broadcastShapes_iff _ _ _).mp hm
+    · rw [hf, hE]; simp [pick1]
+  · intro n hn
+    rw [hv n hn]
+    exact List.getLast?_concat
+
+theorem checkInput_documented (Q K D T : Nat) (A B C : List Nat) (vsz : Option Nat)
+    (withMask : Bool) (dim : Int)
+    (hbc : Forall₂ CompatR A (B ++ C))
+    (hv : ∀ n, vsz = some n → n = D)
+    (hdim : dim = B.length ∨
+      (B ≠ [] ∧ dim = (B.length : Int) - ((B ++ [T] ++ C ++ [K]).length : Int))) :
+    checkInput Q K vsz dim (A ++ [Q]) (B ++ [T] ++ C ++ [K]) (B ++ [T] ++ C ++ [D])
+        (if withMask then some (B ++ [T] ++ C) else none)
+      = .ok (List.zipWith pick1 A (B ++ C) ++ [D]) := by
+  obtain ⟨hax, hfull⟩ := checkInputFull_documented Q K D T A B C vsz withMask dim hbc hv hdim
+  unfold checkInput
+  rw [hfull, hax]
+  have h1 := forall₂_take_append A B C hbc
+  have hl : (List.zipWith pick1 (A.take B.length) B).length = B.length := by
+    simp [h1.length_eq]
+  have hA : List.zipWith pick1 A (B ++ C)
+      = List.zipWith pick1 (A.take B.length) B ++ List.zipWith pick1 (A.drop B.length) C := by
+    conv_lhs => rw [← List.take_append_drop B.length A]
+    exact List.zipWith_append h1.length_eq
+  simp only [hA, List.append_assoc]
+  rw [List.eraseIdx_append_of_length_le (by omega), hl]
+  simp
+
+
+end Doc2
+
+/-! ## Tensors: reading through broadcasting, explicit expansion -/
+section TensorLemmas
+open List
+
+/-- `a` can be expanded to `s`: aligned at the last axis, every axis of `a` has the size of the
+corresponding axis of `s` or size 1. -/
+def ExpandsTo (a s : List Nat) : Prop :=
+  a.length ≤ s.length ∧ ∀ j, j < a.length → axisR a j = axisR s j ∨ axisR a j = 1
+
+theorem bpos_bpos (x y i : Nat) (h : x = y ∨ x = 1) : bpos x (bpos y i) = bpos x i := by
+  unfold bpos
+  rcases h with rfl | rfl
+  · split <;> simp_all
+  · simp
+
+theorem zipWith_bpos_bpos : ∀ (ra rs ri : List Nat), ra.length ≤ rs.length → rs.length ≤ ri.length →
+    (∀ j, j < ra.length → ra.getD j 1 = rs.getD j 1 ∨ ra.getD j 1 = 1) →
+    List.zipWith bpos ra (List.zipWith bpos rs ri) = List.zipWith bpos ra ri
+  | [], _, _, _, _, _ => by simp
+  | x :: ra, [], _, h, _, _ => by simp at h
+  | x :: ra, y :: rs, [], _, h, _ => by simp at h
+  | x :: ra, y :: rs, i :: ri, h1, h2, h => by
+    have h0 := h 0 (by simp)
+    simp only [List.getD_cons_zero] at h0
+    simp only [List.zipWith_cons_cons, bpos_bpos x y i h0, List.cons.injEq, true_and]
+    apply zipWith_bpos_bpos ra rs ri (by simpa using h1) (by simpa using h2)
+    intro j hj
+    simpa using h (j + 1) (by simpa using hj)
+
+theorem bidx_bidx (a s idx : List Nat) (h : ExpandsTo a s) (hi : s.length ≤ idx.length) :
+    bidx a (bidx s idx) = bidx a idx := by
+  unfold bidx
+  rw [List.reverse_reverse]
+  congr 1
+  apply zipWith_bpos_bpos _ _ _ (by simpa using h.1) (by simpa using hi)
+  intro j hj
+  exact h.2 j (by simpa using hj)
+
+theorem read_expand {α : Type} (t : Tensor α) (s idx : List Nat) (h : ExpandsTo t.shape s)
+    (hi : s.length ≤ idx.length) : (t.expand s).read idx = t.read idx := by
+  simp only [Tensor.read, Tensor.expand, bidx_bidx _ _ _ h hi]
+
+theorem ExpandsTo.refl (s : List Nat) : ExpandsTo s s := ⟨le_refl _, fun _ _ => Or.inl rfl⟩
+
+theorem ExpandsTo.trans {a b c : List Nat} (h1 : ExpandsTo a b) (h2 : ExpandsTo b c) :
+    ExpandsTo a c := by
+  refine ⟨le_trans h1.1 h2.1, ?_⟩
+  intro j hj
+  rcases h1.2 j hj with h | h
+  · rcases h2.2 j (by have := h1.1; omega) with h' | h'
+    · exact Or.inl (h.trans h')
+    · exact Or.inr (h.trans h')
+  · exact Or.inr h
+
+theorem ExpandsTo.of_broadcast_left {a b c : List Nat} (h : BroadcastTo a b c) : ExpandsTo a c := by
+  refine ⟨by rw [h.1]; exact le_max_left _ _, ?_⟩
+  intro j hj
+  obtain ⟨_, h2⟩ := h.2 j (by rw [h.1]; exact lt_of_lt_of_le hj (le_max_left _ _))
+  by_cases h1 : axisR a j = 1
+  · exact Or.inr h1
+  · rw [if_neg h1] at h2; exact Or.inl h2.symm
+
+theorem ExpandsTo.of_broadcast_right {a b c : List Nat} (h : BroadcastTo a b c) : ExpandsTo b c := by
+  refine ⟨by rw [h.1]; exact le_max_right _ _, ?_⟩
+  intro j hj
+  obtain ⟨h1, h2⟩ := h.2 j (by rw [h.1]; exact lt_of_lt_of_le hj (le_max_right _ _))
+  by_cases ha : axisR a j = 1
+  · rw [if_pos ha] at h2; exact Or.inl h2.symm
+  · rw [if_neg ha] at h2
+    rcases h1 with h1 | h1 | h1
+    · exact Or.inl (h1.symm.trans h2.symm)
+    · exact absurd h1 ha
+    · exact Or.inr h1
+
+theorem axisR_snoc_zero (a : List Nat) (x : Nat) : axisR (a ++ [x]) 0 = x := by simp [axisR]
+theorem axisR_snoc_succ (a : List Nat) (x j : Nat) : axisR (a ++ [x]) (j + 1) = axisR a j := by
+  simp [axisR]
+
+theorem ExpandsTo.snoc {a s : List Nat} (h : ExpandsTo a s) (x : Nat) :
+    ExpandsTo (a ++ [x]) (s ++ [x]) := by
+  refine ⟨by simpa using h.1, ?_⟩
+  intro j hj
+  cases j with
+  | zero => simp [axisR_snoc_zero]
+  | succ j => simpa [axisR_snoc_succ] using h.2 j (by simpa using hj)
+
+theorem ExpandsTo.unsnoc {a s : List Nat} {x y : Nat} (h : ExpandsTo (a ++ [x]) (s ++ [y])) :
+    ExpandsTo a s := by
+  refine ⟨by simpa using h.1, ?_⟩
+  intro j hj
+  simpa [axisR_snoc_succ] using h.2 (j + 1) (by simpa using hj)
+
+abbrev Dom1 : Nat → Nat → Prop := fun x y => x = y ∨ x = 1
+
+theorem forall2_getD {R : Nat → Nat → Prop} {l m : List Nat} (h : Forall₂ R l m) (j : Nat)
+    (hj : j < l.length) : R (l.getD j 1) (m.getD j 1) := by
+  have hm : j < m.length := h.length_eq ▸ hj
+  have := (forall₂_iff_get.mp h).2 j hj hm
+  simpa [List.getD_eq_getElem?_getD, hj, hm] using this
+
+theorem forall2_of_getD {R : Nat → Nat → Prop} {l m : List Nat} (hl : l.length = m.length)
+    (h : ∀ j, j < l.length → R (l.getD j 1) (m.getD j 1)) : Forall₂ R l m := by
+  apply forall₂_iff_get.mpr ⟨hl, ?_⟩
+  intro j h1 h2
+  have := h j h1
+  simpa [List.getD_eq_getElem?_getD, h1, h2] using this
+
+theorem ExpandsTo.of_forall2 {a s : List Nat} (h : Forall₂ Dom1 a s) : ExpandsTo a s := by
+  refine ⟨le_of_eq h.length_eq, ?_⟩
+  intro j hj
+  exact forall2_getD (rel_reverse h) j (by simpa using hj)
+
+theorem ExpandsTo.to_forall2 {a s : List Nat} (h : ExpandsTo a s) (hl : a.length = s.length) :
+    Forall₂ Dom1 a s := by
+  apply forall₂_reverse_iff.mp
+  apply forall2_of_getD (by simpa using hl)
+  intro j hj
+  exact h.2 j (by simpa using hj)
+
+/-- un-`unsqueeze`: if the shape with a 1 inserted at axis `i` expands to `s`, the shape itself
+expands to `s` without axis `i`. -/
+theorem forall2_insertAt_eraseIdx {a s : List Nat} {i : Nat} (hi : i ≤ a.length)
+    (h : Forall₂ Dom1 (insertAt i 1 a) s) : Forall₂ Dom1 a (s.eraseIdx i) := by
+  have h1 := forall₂_take i h
+  have h2 := forall₂_drop (i + 1) h
+  have e1 : (insertAt i 1 a).take i = a.take i := by
+    simp only [insertAt, List.append_assoc]
+    rw [List.take_append_of_le_length (by simp [hi])]
+    simp
+  have e2 : (insertAt i 1 a).drop (i + 1) = a.drop i := by
+    simp only [insertAt]
+    have : (a.take i ++ [1]).length = i + 1 := by simp [hi]
+    rw [List.drop_left' this]
+  rw [e1] at h1
+  rw [e2] at h2
+  have := rel_append h1 h2
+  simp only [] at this
+  rwa [List.take_append_drop, ← List.eraseIdx_eq_take_drop_succ] at this
+
+theorem insertAt_length {α : Type} (i : Nat) (x : α) (l : List α) (hi : i ≤ l.length) :
+    (insertAt i x l).length = l.length + 1 := by
+  simp [insertAt]; omega
+
+theorem insertAt_snoc_dropLast {α : Type} (i : Nat) (x y : α) (l : List α) (hi : i ≤ l.length) :
+    (insertAt i x (l ++ [y])).dropLast = insertAt i x l := by
+  simp only [insertAt, List.take_append_of_le_length hi, List.drop_append_of_le_length hi]
+  rw [← List.append_assoc, List.dropLast_concat]
+
+theorem zipWith_pick1_self (l : List Nat) : List.zipWith pick1 l l = l := by
+  induction l with
+  | nil => rfl
+  | cons a l ih => simp [pick1]
+
+theorem compatR_refl (l : List Nat) : Forall₂ CompatR l l :=
+  forall₂_same.mpr (fun x _ => by simp [CompatR, compat1])
+
+/-- What a legal `dim` names. -/
+theorem seqAxis_legal (dim : Int) (kd : Nat) (h1 : dim ≤ (kd : Int) - 2) (h2 : -(kd : Int) + 1 ≤ dim)
+    (h3 : dim ≠ -1) :
+    seqAxis dim kd + 2 ≤ kd ∧
+      (dim = (seqAxis dim kd : Int) ∨ (0 < seqAxis dim kd ∧ dim = (seqAxis dim kd : Int) - kd)) := by
+  unfold seqAxis
+  by_cases h : dim ≥ 0
+  · rw [if_pos h]; omega
+  · rw [if_neg h]; omega
+
+theorem axisR_zero (s : List Nat) : axisR s 0 = s.getLast?.getD 1 := by
+  simp [axisR, List.getD_eq_getElem?_getD, List.getLast?_eq_head?_reverse, List.head?_eq_getElem?]
+
+theorem tensorApply_expand {κ : Type} [Zero κ]
+    (f : Nat → List κ → List (List κ) → List (List κ) → Option (List Bool) → List κ)
+    (outSize : Nat → Nat) (Q K : Nat) (vsz : Option Nat) (dim : Int)
+    (q k v : Tensor κ) (mask : Option (Tensor Bool)) (full : List Nat)
+    (hok : checkInputFull Q K vsz dim q.shape k.shape v.shape (mask.map (·.shape)) = .ok full)
+    (hmask : ∀ mt, mask = some mt → mt.shape.length < k.shape.length) :
+    ∃ t t' : Tensor κ,
+      tensorApply f outSize Q K vsz dim q k v mask = .ok t ∧
+      tensorApply f outSize Q K vsz dim
+          (q.expand ((full.dropLast.eraseIdx (seqAxis dim k.shape.length)) ++ [Q]))
+          (k.expand (full.dropLast ++ [K])) (v.expand full)
+          (mask.map (·.expand full.dropLast)) = .ok t' ∧
+      t'.shape = t.shape ∧ ∀ idx, idx.length = t.shape.length → t'.val idx = t.val idx := by
+  have hI := (checkInputFull_ok_iff _ _ _ _ _ _ _ _ _).mp hok
+  obtain ⟨e, e', he, he', hfull⟩ := hI.bcast
+  have hrq := hI.rank_query
+  have hrv := hI.rank_value
+  obtain ⟨hi2, hdim⟩ := seqAxis_legal dim k.shape.length hI.dim_hi hI.dim_lo hI.dim_ne
+  generalize hi : seqAxis dim k.shape.length = i at *
+  -- lengths
+  obtain ⟨A, hA⟩ : ∃ A, q.shape = A ++ [Q] := ⟨q.shape.dropLast,
+    (List.dropLast_append_getLast? Q (Option.mem_def.mpr hI.size_query)).symm⟩
+  obtain ⟨Bk, hBk⟩ : ∃ Bk, k.shape = Bk ++ [K] := ⟨k.shape.dropLast,
+    (List.dropLast_append_getLast? K (Option.mem_def.mpr hI.size_key)).symm⟩
+  have hAl : A.length + 2 = k.shape.length := by rw [hA] at hrq; simpa using hrq
+  have hins : (insertAt i 1 q.shape).dropLast = insertAt i 1 A := by
+    rw [hA]; exact insertAt_snoc_dropLast i 1 Q A (by omega)
+  have hAB : A.length + 1 = Bk.length := by rw [hBk] at hAl; simpa using hAl
+  have hel : e.length + 1 = k.shape.length := by
+    have := he.1
+    rw [hins, insertAt_length i 1 A (by omega), hBk] at this
+    rw [hBk]; simp at this ⊢; omega
+  have hel' : e'.length + 1 = k.shape.length := by
+    cases hm : mask with
+    | none => rw [hm] at he'; simp at he'; rw [he']; exact hel
+    | some mt =>
+      rw [hm] at he'
+      simp only [Option.map_some] at he'
+      have h1 := he'.1
+      have h2 := hmask mt hm
+      omega
+  have hfl : full.length = k.shape.length := by
+    have := hfull.1
+    simp at this; omega
+  -- full = ET ++ [D]
+  have hne : full ≠ [] := by intro h; rw [h] at hfl; simp at hfl; omega
+  obtain ⟨ET, D, hfd⟩ : ∃ ET D, full = ET ++ [D] :=
+    ⟨full.dropLast, full.getLast hne, (List.dropLast_concat_getLast hne).symm⟩
+  subst hfd
+  have hETl : ET.length + 1 = k.shape.length := by simpa using hfl
+  simp only [List.dropLast_concat]
+  -- what expands to what
+  have x_e'_ET : ExpandsTo e' ET := (ExpandsTo.of_broadcast_left hfull).unsnoc
+  have x_e_e' : ExpandsTo e e' := by
+    cases hm : mask with
+    | none => rw [hm] at he'; simp at he'; rw [he']; exact ExpandsTo.refl _
+    | some mt => rw [hm] at he'; exact ExpandsTo.of_broadcast_left he'
+  have x_e_ET := x_e_e'.trans x_e'_ET
+  have xk : ExpandsTo k.shape (ET ++ [K]) := by
+    have := ((ExpandsTo.of_broadcast_right he).trans x_e_ET).snoc K
+    rwa [hBk, List.dropLast_concat, ← hBk] at this
+  have xv : ExpandsTo v.shape (ET ++ [D]) := ExpandsTo.of_broadcast_right hfull
+  have xm : ∀ mt, mask = some mt → ExpandsTo mt.shape ET := by
+    intro mt hm
+    rw [hm] at he'
+    exact (ExpandsTo.of_broadcast_right he').trans x_e'_ET
+  have xq : ExpandsTo q.shape (ET.eraseIdx i ++ [Q]) := by
+    have h1 : ExpandsTo (insertAt i 1 A) ET := by
+      have := (ExpandsTo.of_broadcast_left he).trans x_e_ET
+      rwa [hins] at this
+    have h2 := h1.to_forall2 (by rw [insertAt_length i 1 A (by omega)]; omega)
+    have h3 := ExpandsTo.of_forall2 (forall2_insertAt_eraseIdx (by omega) h2)
+    rw [hA]; exact h3.snoc Q
+  -- decomposition of ET around the sequence axis
+  have hiET : i < ET.length := by omega
+  obtain ⟨P, T, S, hPTS, hPl⟩ : ∃ P T S, ET = P ++ [T] ++ S ∧ P.length = i :=
+    ⟨ET.take i, ET[i], ET.drop (i + 1), by simp, by simp; omega⟩
+  have hEb : ET.eraseIdx i = P ++ S := by
+    rw [hPTS, List.eraseIdx_eq_take_drop_succ]
+    have h1 : (P ++ [T] ++ S).take i = P := by
+      rw [List.append_assoc]; exact List.take_left' hPl
+    have h2 : (P ++ [T] ++ S).drop (i + 1) = S := List.drop_left' (by simp [hPl])
+    rw [h1, h2]
+  -- check_input on the expanded shapes
+  have hvD : ∀ n, vsz = some n → n = D := by
+    intro n hn
+    have h1 := hI.size_value n hn
+    have h2 := (hfull.2 0 (by simp)).2
+    rw [axisR_snoc_zero, axisR_snoc_zero, if_pos rfl, axisR_zero, h1] at h2
+    simpa using h2.symm
+  have hkd' : (P ++ [T] ++ S ++ [K]).length = k.shape.length := by
+    rw [← hPTS]; simpa using hETl
+  have hexp := (checkInputFull_documented Q K D T (P ++ S) P S vsz mask.isSome dim
+    (compatR_refl _) hvD (by
+      rw [hkd', hPl]
+      rcases hdim with h | ⟨h0, h⟩
+      · exact Or.inl h
+      · exact Or.inr ⟨by intro hP; rw [hP] at hPl; simp at hPl; omega, h⟩)).2
+  rw [List.take_left' rfl, List.drop_left' rfl, zipWith_pick1_self, zipWith_pick1_self] at hexp
+  have hmaskshape : (mask.map (·.expand ET)).map (·.shape)
+      = if mask.isSome then some (P ++ [T] ++ S) else none := by
+    cases mask <;> simp [Tensor.expand, hPTS]
+  have hok' : checkInputFull Q K vsz dim (q.expand (ET.eraseIdx i ++ [Q])).shape
+      (k.expand (ET ++ [K])).shape (v.expand (ET ++ [D])).shape
+      ((mask.map (·.expand ET)).map (·.shape)) = .ok (ET ++ [D]) := by
+    rw [hmaskshape]
+    simp only [Tensor.expand, hEb]
+    rw [hPTS]
+    exact hexp
+  have hi' : seqAxis dim (k.expand (ET ++ [K])).shape.length = i := by
+    simp only [Tensor.expand, List.length_append, List.length_singleton, hETl, hi]
+  let mk := fun (q k v : Tensor κ) (mask : Option (Tensor Bool)) =>
+    ({ shape := ((ET ++ [D]).eraseIdx i).dropLast ++ [outSize ((ET ++ [D]).getLastD 0)],
+       val := fun idx =>
+         let el := elemAt i ((ET ++ [D]).getD i 0) Q K ((ET ++ [D]).getLastD 0) q k v mask idx.dropLast
+         (f ((ET ++ [D]).getLastD 0) el.1 el.2.1 el.2.2.1 el.2.2.2).getD (idx.getLastD 0) 0 } : Tensor κ)
+  have h1 : tensorApply f outSize Q K vsz dim q k v mask = .ok (mk q k v mask) := by
+    simp only [tensorApply, hok, hi]; rfl
+  have h2 : tensorApply f outSize Q K vsz dim (q.expand (ET.eraseIdx i ++ [Q]))
+      (k.expand (ET ++ [K])) (v.expand (ET ++ [D])) (mask.map (·.expand ET))
+      = .ok (mk (q.expand (ET.eraseIdx i ++ [Q])) (k.expand (ET ++ [K])) (v.expand (ET ++ [D]))
+          (mask.map (·.expand ET))) := by
+    simp only [tensorApply, hok', hi']; rfl
+  refine ⟨_, _, h1, h2, rfl, ?_⟩
+  -- the values
+  intro idx hidx
+  simp only [mk] at hidx ⊢
+  have hel1 : (idx.dropLast).length + 2 = k.shape.length := by
+    have h1 : ((ET ++ [D]).eraseIdx i).length = ET.length := by
+      rw [List.length_eraseIdx]; simp; omega
+    simp only [List.length_append, List.length_dropLast, List.length_singleton, h1] at hidx
+    simp only [List.length_dropLast, hidx]; omega
+  have hins_len : ∀ t, (insertAt i t idx.dropLast).length + 1 = k.shape.length := by
+    intro t; rw [insertAt_length i t _ (by omega)]; omega
+  have hel_eq : elemAt i ((ET ++ [D]).getD i 0) Q K ((ET ++ [D]).getLastD 0)
+        (q.expand (ET.eraseIdx i ++ [Q])) (k.expand (ET ++ [K])) (v.expand (ET ++ [D]))
+        (mask.map (·.expand ET)) idx.dropLast
+      = elemAt i ((ET ++ [D]).getD i 0) Q K ((ET ++ [D]).getLastD 0) q k v mask idx.dropLast := by
+    unfold elemAt
+    refine Prod.ext ?_ (Prod.ext ?_ (Prod.ext ?_ ?_))
+    · apply List.map_congr_left
+      intro j _
+      exact read_expand q _ _ xq (by
+        have : (ET.eraseIdx i).length + 1 = ET.length := by rw [List.length_eraseIdx]; simp [hiET]; omega
+        simp only [List.length_append, List.length_singleton]; omega)
+    · apply List.map_congr_left
+      intro t _
+      apply List.map_congr_left
+      intro j _
+      exact read_expand k _ _ xk (by
+        have := hins_len t; simp only [List.length_append, List.length_singleton]; omega)
+    · apply List.map_congr_left
+      intro t _
+      apply List.map_congr_left
+      intro j _
+      exact read_expand v _ _ xv (by
+        have := hins_len t; simp only [List.length_append, List.length_singleton]; omega)
+    · cases hm : mask with
+      | none => rfl
+      | some mt =>
+        simp only [Option.map_some, Option.some.injEq]
+        apply List.map_congr_left
+        intro t _
+        exact read_expand mt _ _ (xm mt hm) (by have := hins_len t; omega)
+  rw [hel_eq]
+
+end TensorLemmas
 
 end PdtVerif.Attention
